@@ -1211,3 +1211,18 @@ class Complete(_Base):
 
 
 STREAMS = [Ensemble(), Complete()]
+
+
+def _guard(fn):
+    """An exception inside an instance check is a harness fault (an oracle tripping over an unexpected but legal
+    output container), not the property's words failing: reported as mechanism-level, never as a violation."""
+    def holds(self, case, out):
+        try:
+            return fn(self, case, out)
+        except Exception as e:  # noqa
+            return [Failure('instance-check-crashed', repr(e), literal=False)]
+    return holds
+
+
+for _cls in {_b for _s in STREAMS for _b in type(_s).__mro__ if _b.__module__ == __name__ and 'holds' in _b.__dict__}:
+    _cls.holds = _guard(_cls.holds)
